@@ -724,15 +724,15 @@ func foldWindowRule(p *Program, r *Reporter) {
 	foundFold, foundJump := false, false
 	for _, f := range vmPk.Syntax {
 		ast.Inspect(f, func(n ast.Node) bool {
-			fl, ok := n.(*ast.FuncLit)
-			if !ok {
+			flBody, sig := callbackBody(info, n)
+			if flBody == nil {
 				return true
 			}
 			// the walker callbacks: func(int, code.Opcode, interface{}) (bool, error)
-			sig, ok := info.Types[fl].Type.(*types.Signature)
-			if !ok || sig.Params().Len() != 3 || !isOpcodeType(sig.Params().At(1).Type()) {
+			if sig.Params().Len() != 3 || !isOpcodeType(sig.Params().At(1).Type()) {
 				return true
 			}
+			fl := &ast.FuncLit{Body: flBody}
 			opParam := sig.Params().At(1)
 			var sw *ast.SwitchStmt
 			for _, st := range fl.Body.List {
@@ -762,8 +762,8 @@ func foldWindowRule(p *Program, r *Reporter) {
 							if as, ok := st.(*ast.AssignStmt); ok && len(as.Lhs) == 1 {
 								if ce, ok := as.Rhs[0].(*ast.CallExpr); ok {
 									if id, ok := ce.Fun.(*ast.Ident); ok && id.Name == "append" {
-										if lid, ok := as.Lhs[0].(*ast.Ident); ok {
-											window = info.Uses[lid]
+										if o := lhsObject(info, as.Lhs[0]); o != nil {
+											window = o
 										}
 									}
 								}
@@ -779,7 +779,7 @@ func foldWindowRule(p *Program, r *Reporter) {
 				if def != nil {
 					for _, st := range def.Body {
 						if as, ok := st.(*ast.AssignStmt); ok && len(as.Lhs) == 1 {
-							if lid, ok := as.Lhs[0].(*ast.Ident); ok && info.Uses[lid] == window {
+							if lhsObject(info, as.Lhs[0]) == window {
 								if tv := info.Types[as.Rhs[0]]; tv.IsNil() {
 									resets = true
 								}
@@ -1071,6 +1071,19 @@ var narrowOK = map[string]string{
 	"vm.(*VM).removeNOPs/new jump target": "the value is an entry of the old→new offset map; new offsets are never larger than the old ones, which were read from 16-bit operands",
 }
 
+// offsetMapEntry: the value is the result of a lookup in a map[int]int.
+func offsetMapEntry(v ssa.Value) bool {
+	if ex, ok := v.(*ssa.Extract); ok {
+		v = ex.Tuple
+	}
+	lk, ok := v.(*ssa.Lookup)
+	if !ok {
+		return false
+	}
+	mt, ok := lk.X.Type().Underlying().(*types.Map)
+	return ok && isInt(mt.Key()) && isInt(mt.Elem())
+}
+
 func ruleNarrow(p *Program, r *Reporter) {
 	for _, fn := range p.LibFns {
 		for _, b := range fn.Blocks {
@@ -1153,6 +1166,13 @@ func ruleNarrow(p *Program, r *Reporter) {
 					k2 := p.FnName(fn) + "/new jump target"
 					if why, ok := narrowOK[k2]; ok {
 						r.OkNT(key, p.Pos(call.Pos()), "allowed: "+why)
+						continue
+					}
+					// the same listed construct, wherever its text sits: an entry of
+					// a map from old to new instruction offsets (int → int), in the
+					// optimizer's package
+					if offsetMapEntry(src) && fnPkg(fn) != nil && fnPkg(fn).Pkg.Path() == Mod+"/vm" {
+						r.OkNT(key, p.Pos(call.Pos()), "allowed: "+narrowOK["vm.(*VM).removeNOPs/new jump target"])
 						continue
 					}
 				}
